@@ -407,6 +407,36 @@ def f_status( ctx ):
     else:
         res.bad( src, sts[0], 'read status: end == endactual -> 0x%02x, end < endactual -> 0x%02x' % ( done, more ),
                  'a fragment that reaches the requested end must reply 0x00 and any earlier one 0x06; otherwise the transfer ends early (data missing) or never ends' )
+    # ---- the structure ( UDT ) branch ships octets, cut to the byte window [ offset, offset + budget ): by value, on records of 8 octets - what
+    #      is shipped is that window of the records' rendering, and the transfer is complete iff the last requested record was rendered AND the
+    #      window reaches the end of the rendering ( a window that ends exactly AT the end is complete: a follow-up read has nothing to fetch )
+    sif = [ i for i in rdb.body if isinstance( i, ast.If ) and 'STRUCT' in txt( i.test ) ]
+    stest = sts[0].value.test if isinstance( sts[0].value, ast.IfExp ) else None
+    if sif and isinstance( stest, ast.Name ) and recs is not None:
+        from .fold import run_block, Record
+        COMPL = stest.id
+        wrong = []
+        for nrec, off, same in (( 61, 0, True ), ( 61, 0, False ), ( 62, 0, True ), ( 62, 488, True ), ( 10, 0, True ), ( 122, 0, True ), ( 122, 488, True ), ( 122, 488, False ), ( 1, 4, True )):
+            rendering = b''.join( bytes( [ k % 251 ] ) * 8 for k in range( nrec ))
+            env = { RM.name( '_recs' ): [ Record( data=Record( input=bytes( [ k % 251 ] ) * 8 )) for k in range( nrec ) ],
+                    'octets_encode': bytes, 'bytes': bytes, OFFREM: off, MAXSIZE: 488, END: 200, ENDACTUAL: 200 if same else 300 }
+            try:
+                run_block( sif[0].body, env, ignore_calls=( 'log', ))
+            except NoFold as exc:
+                raise AnalysisError( 'Logix.request: the structure branch of a read is not a decision fragment: %s' % exc )
+            res.cells += 1
+            want_c = same and off + 488 >= len( rendering )
+            shipped = env.get( RM.name( '_recs' ))
+            shipped = shipped.get( 'input' ) if isinstance( shipped, dict ) else shipped
+            if bool( env.get( COMPL )) != want_c or shipped != rendering[off:off + 488]:
+                wrong.append(( nrec, off, same, bool( env.get( COMPL )), want_c, shipped == rendering[off:off + 488] ))
+        if wrong:
+            nrec, off, same, got, want, okship = wrong[0]
+            res.bad( src, sif[0], 'structure read of %d records of 8 octets, window at %d, last record %s: complete = %s ( specified %s ), window %s' % (
+                nrec, off, 'rendered' if same else 'not yet rendered', got, want, 'shipped' if okship else 'NOT what is shipped' ),
+                     'a fragment that carries the last octet must be the last one ( 0x00 ): marked 0x06, the client asks for the rest at an offset equal to the data size and is refused 0xFF/0x2105 - a complete read ends in an error ( only when the data fills the window exactly ); marked 0x00 early, the transfer ends short' )
+        else:
+            res.ok( src, sif[0], 'structure reads ship the byte window of the rendering and are complete iff the last record is rendered and the window reaches its end ( 9 cells )' )
     # write branch
     wr = [ s for s in ast.walk( fn ) if isinstance( s, ast.Assign ) and pmatch( s.targets[0], '%s[%s:%s]' % ( ATT, BEG, END )) is not None ]
     if len( wr ) == 1 and pmatch( wr[0].value, 'data[%s].data' % CTX ) is not None and any( wr[0] is x for b in rdb.orelse for x in ast.walk( b )):
